@@ -35,7 +35,7 @@ import (
 
 const prec = 640
 
-// stable key of the listed finding
+// stable key of the finding fixed by commit 839997b (a regression is reported under it)
 const whatPanic = "choose panics (cephes: parameter out of bounds) when the committee size exceeds the total stake"
 
 var maxHash = ucon.VerifC04MaxHash()
@@ -64,24 +64,24 @@ type Rec struct {
 	Comment   string `json:"comment,omitempty"`
 }
 
-func bf(x *big.Int) *big.Float  { return new(big.Float).SetPrec(prec).SetInt(x) }
-func bfi(x int64) *big.Float    { return new(big.Float).SetPrec(prec).SetInt64(x) }
-func bff(x float64) *big.Float  { return new(big.Float).SetPrec(prec).SetFloat64(x) }
-func newf() *big.Float          { return new(big.Float).SetPrec(prec) }
-func bigOf(s string) *big.Int   { x, _ := new(big.Int).SetString(s, 10); return x }
+func bf(x *big.Int) *big.Float      { return new(big.Float).SetPrec(prec).SetInt(x) }
+func bfi(x int64) *big.Float        { return new(big.Float).SetPrec(prec).SetInt64(x) }
+func bff(x float64) *big.Float      { return new(big.Float).SetPrec(prec).SetFloat64(x) }
+func newf() *big.Float              { return new(big.Float).SetPrec(prec) }
+func bigOf(s string) *big.Int       { x, _ := new(big.Int).SetString(s, 10); return x }
 func hashOf(x *big.Int) common.Hash { return common.BigToHash(x) }
 
 // ---- independent statement of the quantile ---------------------------------
 
 type dist struct {
-	n      int64
-	p, q   *big.Float
-	ratio  *big.Float
-	j      int64
-	pm     *big.Float // pmf(j)
-	cdf    *big.Float // cdf(j)
-	prev   *big.Float // cdf(j-1)
-	tmp    *big.Float
+	n     int64
+	p, q  *big.Float
+	ratio *big.Float
+	j     int64
+	pm    *big.Float // pmf(j)
+	cdf   *big.Float // cdf(j)
+	prev  *big.Float // cdf(j-1)
+	tmp   *big.Float
 }
 
 func newDist(n int64, a, b *big.Int) *dist {
@@ -267,8 +267,9 @@ func zb(x *big.Int) string {
 	}
 	return x.String()
 }
-func zi(x int64) string { return zb(big.NewInt(x)) }
+func zi(x int64) string         { return zb(big.NewInt(x)) }
 func qCoq(a, b *big.Int) string { return fmt.Sprintf("(%s # %s)", zb(a), b.String()) }
+
 // a byte string as one number: 1 followed by the bytes, base 256 (Model.bytes_key)
 func bytesCoq(b []byte) string {
 	return zb(new(big.Int).SetBytes(append([]byte{1}, b...)))
@@ -471,6 +472,8 @@ func run(rec *Rec, toCoq bool) outcome {
 		switch {
 		case panicked:
 			o.class = "choose_panic_p_gt_1"
+		case a.Cmp(b) > 0 && hb.Sign() > 0 && hb.Cmp(maxHash) < 0:
+			o.class = "choose_committee_exceeds_total"
 		case hb.Sign() == 0:
 			o.class = "choose_hash_zero"
 		case hb.Cmp(maxHash) == 0:
@@ -811,7 +814,7 @@ func genP(r *vf.Rng, small bool, w int64) (*big.Int, *big.Int) {
 			return big.NewInt(b + 1 + int64(r.Intn(60))), big.NewInt(b)
 		case 3, 4:
 			th := int64(thresholds[r.Intn(len(thresholds))])
-			return big.NewInt(th), big.NewInt(th * int64(1+r.Intn(40)) + int64(r.Intn(int(th))))
+			return big.NewInt(th), big.NewInt(th*int64(1+r.Intn(40)) + int64(r.Intn(int(th))))
 		case 5:
 			return big.NewInt(1), big.NewInt(int64(1 + r.Intn(1000000)))
 		case 6: // mean around the 20 switch
@@ -1107,8 +1110,8 @@ func gen(seed uint64, n int, outDir, corpusDir string) {
 	sb.WriteString("From VF.C04 Require Import Model.\nLocal Open Scope Z_scope.\nDefinition cases : list case := [\n")
 	sb.WriteString(strings.Join(coqCases, ";\n"))
 	mm := "mismatches"
-	if rep {
-		mm = "mismatches_repaired"
+	if !rep { // a tree without the clamp in choose (commit 839997b): compare with the old function
+		mm = "mismatches_unrepaired"
 	}
 	sb.WriteString("].\nDefinition M := Eval vm_compute in " + mm + " cases.\nPrint M.\n")
 	vf.WriteFile(filepath.Join(outDir, "Cases.v"), sb.String())
